@@ -206,3 +206,24 @@ example : Extracted.split_at_mut [1, 2, 3, 4] 9 = .ok ([1, 2, 3, 4], []) := by
   rw [split_at_mut_eq]; decide
 
 end Extracted.Equiv
+
+namespace Extracted.Equiv
+open Rs Konst Konst.Slice
+
+/-- `try_into_array_func::<T, N>`: succeeds exactly when `len = N` (the model's `tryIntoArray`), then views the
+    whole slice; the `Dereference { ptr }.reff` read of `N` elements is in bounds (no `ub`). -/
+theorem try_into_array_func_eq {T : Type} (N : Nat) (s : List T) :
+    Extracted.try_into_array_func N s =
+      .ok (match tryIntoArray s.length N with
+           | some v => Except.ok (v.apply s)
+           | none => Except.error { slice_len := s.length, array_len := N }) := by
+  unfold Extracted.try_into_array_func tryIntoArray
+  by_cases h : s.length = N
+  · subst h
+    simp [Rs.rawParts, View.apply]
+  · simp [h]
+
+example : Extracted.try_into_array_func 2 [7, 8] = .ok (Except.ok [7, 8]) := by rfl
+example : Extracted.try_into_array_func 3 [7, 8] = .ok (Except.error { slice_len := 2, array_len := 3 }) := by rfl
+
+end Extracted.Equiv
